@@ -333,14 +333,15 @@ func TestCheck(t *testing.T) {
 	kinds := allKinds()
 	r.Rule(fmt.Sprintf("case = one Aggregate call on the real sigagg.Aggregator (real NewVerifier over beaconmock; one Aggregator per cluster shared by all concurrent cases); "+
 		"object kind cycles through all 12 core.Eth2SignedData types x every fork version (7 attestation, 5+5 blinded proposal (bellatrix..fulu; charon refuses phase0/altair proposals as unsupported), 7 versioned aggregate-and-proof versions; %d kinds), content from charon's testutil generators (not seed-reproducible) with PRNG slots/epochs around the mock's fork boundaries; "+
-		"cluster from cluster.NewForT with real key shares, n in 3..%d, t=ceil(2n/3), 3 validators; 1..3 validators per call; "+
+		"cluster from cluster.NewForT with real key shares, n in 3..%d, t=ceil(2n/3), 4 validators; 1..4 validators per call; "+
+		"45%% of the multi-validator calls are shared-object calls: all 2..4 validators sign the SAME object (same signing root and domain, different group keys), in 80%% of them with the same share-index subset; a shared-object call is valid, carries one of the single-validator classes below, or (45%%) a cross-validator class: the partials of share index i of validators A and B carry each other's signature for one index / several indices / all indices of the used subset, whole partial lists exchanged (also with different subsets), a rotation among three validators, a swap next to a correctly signing third validator with an object of its own; bystanders sign the shared object or one of their own; "+
 		"attestations: 40%% straddle a fork activation epoch F of the node's schedule (target F or F+1, source F-1 or F-2), else target from the epoch mix with the source right behind / a few epochs behind / anywhere; "+
-		"call class PRNG: valid (threshold subsets walked round-robin so that every subset of size >= t is used for n<=5; PRNG subsets above, partial order shuffled) / one of %d must-error corruption classes applied to exactly one validator of the call / one of %d universal-only classes; "+
+		"call class PRNG: valid (threshold subsets walked round-robin so that every subset of size >= t is used for n<=5; PRNG subsets above, partial order shuffled) / one of %d must-error corruption classes applied to exactly one validator of the call / one of %d cross-validator classes (must-error too) / one of %d universal-only classes; "+
 		"the other-domain/* classes sign the object's own root with genuine shares under a domain that is not the object's own (previous / next fork version of the schedule, another domain type, the schedule's domain at another epoch: attestation source epoch or slot epoch, own epoch +-1, the other side of the nearest fork activation, for exits and builder registrations the plain schedule domain; all partials, or 1..len-1 of them in the mixed class; other-domain-type is drawn with triple weight and walks the other domain types round-robin per object kind); "+
 		"30%% of the valid calls are followed by a replay that keeps one validator's first partial byte-identical and re-signs another of its partials with an unrelated key (must be refused although the same head was verified a moment before); "+
 		"35%% of all calls (valid and corrupted alike) run under a per-call beacon-node fault plan carried in the context: 1-2 rules over the verifier's lookups (Spec, Domain, GenesisDomain, Genesis, ForkSchedule, SlotsPerEpoch, or 'k-th lookup of the call whichever it is'), each failing with an error or a context-deadline error always / only the k-th time / from the k-th time on; "+
 		"non-trivial = the call carried at least one validator with >= t partials or a corruption; distinct = hash(kind, n, class, labels, corrupted position, validators)",
-		len(kinds), maxN, len(mustErrorClasses), len(universalOnlyClasses)))
+		len(kinds), maxN, len(mustErrorClasses), len(crossValidatorClasses), len(universalOnlyClasses)))
 	r.Assume("herumi BLS (tbls.Verify / tbls.Sign) is correct (C08); the harness verifies published signatures with tbls.Verify directly against a signing root it computes itself (object hash-tree-root via go-eth2-client types, domain from the mock's raw spec / genesis / fork schedule)")
 	r.Assume("the verifier's beacon-node client is charon's production http adapter (eth2wrap.AdaptEth2HTTP, fork version set) over the beaconmock's HTTP server; a voluntary exit's own domain is DOMAIN_VOLUNTARY_EXIT under CAPELLA_FORK_VERSION of the node's spec from CAPELLA_FORK_EPOCH on (EIP-7044, which the adapter's Domain implements), computed by the harness from the raw spec values")
 	r.Assume("an object's own epoch is read from the object per the consensus specs by the harness (attestation: data.target.epoch; block / aggregate / selection / sync messages: epoch of the slot; exit: message epoch; randao: the signed epoch; builder registration: none), never through charon's Epoch()/DomainName()/MessageRoot() methods")
@@ -356,6 +357,8 @@ func TestCheck(t *testing.T) {
 	r.Require("fault_served_calls", 1000)
 	r.Require("fault_served_calls_with_corruption", 500)
 	r.Require("calls_other_domain_rejected", 800)
+	r.Require("calls_cross_validator_rejected", 500)
+	r.Require("shared_object_valid_calls_published", 150)
 	r.Require("other_domain_attestation_sets_under_source_epoch_domain", 20)
 	r.Require("valid_published_attestations_source_and_target_in_different_forks", 50)
 
@@ -425,7 +428,7 @@ func TestCheck(t *testing.T) {
 	var clusters []*clusterEnv
 	for n := 3; n <= maxN; n++ {
 		th := (2*n + 2) / 3 // ceil(2n/3)
-		const dv = 3
+		const dv = 4
 		// low byte fixed at 16: testutil.GenerateInsecureK1Key(seed+i) feeds ecdsa.GenerateKey a constant
 		// byte (seed+i+1) and never returns when that byte is 0x00 or 0xff (e.g. VERIF_SEED=23, n=3).
 		seed := (int(r.Seed%(1<<40))*16+n)*256 + 16
@@ -1198,11 +1201,11 @@ func runCase(ctx context.Context, c *kit.Case, ch *chain, mon *monitor, env *clu
 		if cls == "repeated-share-above-threshold" || cls == "duplicate-label-conflict" {
 			size = env.t + rng.Intn(env.n-env.t+1)
 		}
-		if (cls == "mixed-two-messages" && size < 2) || (class == "cross-validator/swap-several-indices" && size < 3) {
-			size = max(size, 2)
-			if class == "cross-validator/swap-several-indices" {
-				size = 3 // n >= 3 in every cluster
-			}
+		if cls == "mixed-two-messages" && size < 2 {
+			size = 2
+		}
+		if class == "cross-validator/swap-several-indices" && size < 3 {
+			size = 3 // n >= 3 in every cluster
 		}
 
 		return randSubset(rng, env.n, size)
@@ -1378,6 +1381,9 @@ func runCase(ctx context.Context, c *kit.Case, ch *chain, mon *monitor, env *clu
 				if strings.HasPrefix(class, "other-domain/") {
 					r.Count("calls_other_domain_rejected", 1)
 				}
+				if strings.HasPrefix(class, "cross-validator/") {
+					r.Count("calls_cross_validator_rejected", 1)
+				}
 				r.Seen("reject_reasons", class+" => "+reason(err))
 			}
 		}
@@ -1462,6 +1468,9 @@ func runCase(ctx context.Context, c *kit.Case, ch *chain, mon *monitor, env *clu
 		switch {
 		case allValid && err == nil && len(pubs) > 0:
 			r.Count("calls_valid_published", 1)
+			if sharedCall {
+				r.Count("shared_object_valid_calls_published", 1)
+			}
 			for _, p := range plans {
 				if p.straddles {
 					r.Count("valid_published_attestations_source_and_target_in_different_forks", 1)
